@@ -5,7 +5,6 @@ use super::objectreceiver::ObjectReceiver;
 use super::writer::{ObjectMetadata, ObjectWriterBuilder};
 use crate::common::udpendpoint::UDPEndpoint;
 use crate::common::{alc, lct};
-use crate::receiver::writer::ObjectCacheControl;
 use crate::tools::error::FluteError;
 use crate::tools::error::Result;
 use std::collections::{BTreeMap, BTreeSet, HashMap, VecDeque};
@@ -525,18 +524,17 @@ impl Receiver {
                         obj.toi
                     );
 
-                    if obj.cache_control != Some(ObjectCacheControl::NoCache) {
-                        self.objects_completed.insert(
-                            obj.toi,
-                            ObjectCompletedMeta {
-                                metadata: obj.create_meta(),
-                            },
-                        );
-                    } else {
-                        if obj.cache_control.is_none() {
-                            log::error!("No cache expiration date for {:?}", obj.content_location);
-                        }
+                    if obj.cache_control.is_none() {
+                        log::error!("No cache expiration date for {:?}", obj.content_location);
                     }
+                    // no-cache objects are remembered too, packets of the same transfer that
+                    // arrive after the completion must not start a new reception
+                    self.objects_completed.insert(
+                        obj.toi,
+                        ObjectCompletedMeta {
+                            metadata: obj.create_meta(),
+                        },
+                    );
                 }
                 objectreceiver::State::Interrupted => {
                     log::debug!(
